@@ -648,7 +648,7 @@ func c47(c *rig.Ctx) {
 	st := &c47stats{}
 	box := startBox(c, "c47")
 	disableStats(box)
-	n := c.Pick(30, 600)
+	n := c.Pick(24, 600)
 	for i := 0; i < n && c.Violations() < 12; i++ {
 		c47scenario(c, box, i, st, "plain")
 	}
